@@ -13,17 +13,19 @@ import (
 
 // BucketOp is one entry of the bucket operation log.
 type BucketOp struct {
-	Seq   int
-	Step  int
-	At    time.Duration
-	Task  string
-	Node  string
-	Op    string // list, load, store, delete
-	Name  string
-	Size  int
-	Err   string
-	Fault string
-	Names []string // result of a list
+	Seq      int
+	Step     int
+	Start    time.Duration // when the caller issued the call
+	StartSeq int           // event sequence number at that moment
+	At       time.Duration // when it completed
+	Task     string
+	Node     string
+	Op       string // list, load, store, delete
+	Name     string
+	Size     int
+	Err      string
+	Fault    string
+	Names    []string // result of a list
 	// Applied reports if the effect of a store/delete was applied
 	Applied bool
 }
@@ -45,7 +47,12 @@ type FaultCfg struct {
 	MaxLatency                            time.Duration
 	StaleList                             int // listing from the recent past
 	StaleWindow                           time.Duration
-	Vanish                                int // listed object reported as not existing on load
+	// StaleShowsDeleted lets a stale listing still show objects deleted
+	// within the window. Off by default: the properties quantify over
+	// listings in which an instance's snapshots appear in timestamp order,
+	// and a deleted object that reappears breaks that order.
+	StaleShowsDeleted bool
+	Vanish            int // listed object reported as not existing on load
 }
 
 var ErrInjected = errors.New("lssim: injected storage error")
@@ -170,6 +177,7 @@ func (b *SimBucket) chance(t *Task, kind string, permille int) bool {
 }
 
 func (b *SimBucket) List(ctx context.Context, prefix string) (simpleblob.BlobList, error) {
+	start, startSeq := b.sim.Now(), b.sim.Seq
 	t := b.enter("bucket:list")
 	if err := ctx.Err(); err != nil {
 		return nil, err
@@ -177,11 +185,11 @@ func (b *SimBucket) List(ctx context.Context, prefix string) (simpleblob.BlobLis
 	b.latency(t, "bucket:list:lat")
 	if f := b.blocked(t); f != "" {
 		b.sim.Fault(f)
-		b.record(t, BucketOp{Op: "list", Name: prefix, Err: ErrInjected.Error(), Fault: f})
+		b.record(t, BucketOp{Start: start, StartSeq: startSeq, Op: "list", Name: prefix, Err: ErrInjected.Error(), Fault: f})
 		return nil, ErrInjected
 	}
 	if b.chance(t, "list-err", b.Cfg.ListErr) {
-		b.record(t, BucketOp{Op: "list", Name: prefix, Err: ErrInjected.Error(), Fault: "list-err"})
+		b.record(t, BucketOp{Start: start, StartSeq: startSeq, Op: "list", Name: prefix, Err: ErrInjected.Error(), Fault: "list-err"})
 		return nil, ErrInjected
 	}
 	fault := ""
@@ -208,7 +216,7 @@ func (b *SimBucket) List(ctx context.Context, prefix string) (simpleblob.BlobLis
 		}
 		bl = append(bl, simpleblob.Blob{Name: name, Size: int64(len(o.data))})
 	}
-	if fault != "" {
+	if fault != "" && b.Cfg.StaleShowsDeleted {
 		for name, tb := range b.tombs {
 			if !strings.HasPrefix(name, prefix) {
 				continue
@@ -225,11 +233,12 @@ func (b *SimBucket) List(ctx context.Context, prefix string) (simpleblob.BlobLis
 	for _, e := range bl {
 		names = append(names, e.Name)
 	}
-	b.record(t, BucketOp{Op: "list", Name: prefix, Names: names, Fault: fault})
+	b.record(t, BucketOp{Start: start, StartSeq: startSeq, Op: "list", Name: prefix, Names: names, Fault: fault})
 	return bl, nil
 }
 
 func (b *SimBucket) Load(ctx context.Context, name string) ([]byte, error) {
+	start, startSeq := b.sim.Now(), b.sim.Seq
 	t := b.enter("bucket:load")
 	if err := ctx.Err(); err != nil {
 		return nil, err
@@ -237,28 +246,29 @@ func (b *SimBucket) Load(ctx context.Context, name string) ([]byte, error) {
 	b.latency(t, "bucket:load:lat")
 	if f := b.blocked(t); f != "" {
 		b.sim.Fault(f)
-		b.record(t, BucketOp{Op: "load", Name: name, Err: ErrInjected.Error(), Fault: f})
+		b.record(t, BucketOp{Start: start, StartSeq: startSeq, Op: "load", Name: name, Err: ErrInjected.Error(), Fault: f})
 		return nil, ErrInjected
 	}
 	if b.chance(t, "load-err", b.Cfg.LoadErr) {
-		b.record(t, BucketOp{Op: "load", Name: name, Err: ErrInjected.Error(), Fault: "load-err"})
+		b.record(t, BucketOp{Start: start, StartSeq: startSeq, Op: "load", Name: name, Err: ErrInjected.Error(), Fault: "load-err"})
 		return nil, ErrInjected
 	}
 	o, ok := b.objs[name]
 	if ok && b.chance(t, "vanish", b.Cfg.Vanish) {
-		b.record(t, BucketOp{Op: "load", Name: name, Err: os.ErrNotExist.Error(), Fault: "vanish"})
+		b.record(t, BucketOp{Start: start, StartSeq: startSeq, Op: "load", Name: name, Err: os.ErrNotExist.Error(), Fault: "vanish"})
 		return nil, os.ErrNotExist
 	}
 	if !ok {
-		b.record(t, BucketOp{Op: "load", Name: name, Err: os.ErrNotExist.Error()})
+		b.record(t, BucketOp{Start: start, StartSeq: startSeq, Op: "load", Name: name, Err: os.ErrNotExist.Error()})
 		return nil, os.ErrNotExist
 	}
 	data := append([]byte(nil), o.data...)
-	b.record(t, BucketOp{Op: "load", Name: name, Size: len(data)})
+	b.record(t, BucketOp{Start: start, StartSeq: startSeq, Op: "load", Name: name, Size: len(data)})
 	return data, nil
 }
 
 func (b *SimBucket) Store(ctx context.Context, name string, data []byte) error {
+	start, startSeq := b.sim.Now(), b.sim.Seq
 	t := b.enter("bucket:store")
 	if err := ctx.Err(); err != nil {
 		return err
@@ -266,24 +276,24 @@ func (b *SimBucket) Store(ctx context.Context, name string, data []byte) error {
 	b.latency(t, "bucket:store:lat")
 	if f := b.blocked(t); f != "" {
 		b.sim.Fault(f)
-		b.record(t, BucketOp{Op: "store", Name: name, Size: len(data), Err: ErrInjected.Error(), Fault: f})
+		b.record(t, BucketOp{Start: start, StartSeq: startSeq, Op: "store", Name: name, Size: len(data), Err: ErrInjected.Error(), Fault: f})
 		return ErrInjected
 	}
 	if t != nil && t.Node != nil {
 		if b.FullFor[t.Node.Name] {
 			b.sim.Fault("full")
-			b.record(t, BucketOp{Op: "store", Name: name, Size: len(data), Err: ErrInjected.Error(), Fault: "full"})
+			b.record(t, BucketOp{Start: start, StartSeq: startSeq, Op: "store", Name: name, Size: len(data), Err: ErrInjected.Error(), Fault: "full"})
 			return ErrInjected
 		}
 		if n := b.StoreFailures[t.Node.Name]; n > 0 {
 			b.StoreFailures[t.Node.Name] = n - 1
 			b.sim.Fault("store-fail-seq")
-			b.record(t, BucketOp{Op: "store", Name: name, Size: len(data), Err: ErrInjected.Error(), Fault: "store-fail-seq"})
+			b.record(t, BucketOp{Start: start, StartSeq: startSeq, Op: "store", Name: name, Size: len(data), Err: ErrInjected.Error(), Fault: "store-fail-seq"})
 			return ErrInjected
 		}
 	}
 	if b.chance(t, "store-err", b.Cfg.StoreErr) {
-		b.record(t, BucketOp{Op: "store", Name: name, Size: len(data), Err: ErrInjected.Error(), Fault: "store-err"})
+		b.record(t, BucketOp{Start: start, StartSeq: startSeq, Op: "store", Name: name, Size: len(data), Err: ErrInjected.Error(), Fault: "store-err"})
 		return ErrInjected
 	}
 	by := "driver"
@@ -293,14 +303,15 @@ func (b *SimBucket) Store(ctx context.Context, name string, data []byte) error {
 	b.objs[name] = &blob{data: append([]byte(nil), data...), storedAt: b.sim.Now(), by: by}
 	delete(b.tombs, name)
 	if b.chance(t, "store-err-after", b.Cfg.StoreErrAfter) {
-		b.record(t, BucketOp{Op: "store", Name: name, Size: len(data), Err: ErrInjected.Error(), Fault: "store-err-after", Applied: true})
+		b.record(t, BucketOp{Start: start, StartSeq: startSeq, Op: "store", Name: name, Size: len(data), Err: ErrInjected.Error(), Fault: "store-err-after", Applied: true})
 		return ErrInjected
 	}
-	b.record(t, BucketOp{Op: "store", Name: name, Size: len(data), Applied: true})
+	b.record(t, BucketOp{Start: start, StartSeq: startSeq, Op: "store", Name: name, Size: len(data), Applied: true})
 	return nil
 }
 
 func (b *SimBucket) Delete(ctx context.Context, name string) error {
+	start, startSeq := b.sim.Now(), b.sim.Seq
 	t := b.enter("bucket:delete")
 	if err := ctx.Err(); err != nil {
 		return err
@@ -308,11 +319,11 @@ func (b *SimBucket) Delete(ctx context.Context, name string) error {
 	b.latency(t, "bucket:delete:lat")
 	if f := b.blocked(t); f != "" {
 		b.sim.Fault(f)
-		b.record(t, BucketOp{Op: "delete", Name: name, Err: ErrInjected.Error(), Fault: f})
+		b.record(t, BucketOp{Start: start, StartSeq: startSeq, Op: "delete", Name: name, Err: ErrInjected.Error(), Fault: f})
 		return ErrInjected
 	}
 	if b.chance(t, "delete-err", b.Cfg.DeleteErr) {
-		b.record(t, BucketOp{Op: "delete", Name: name, Err: ErrInjected.Error(), Fault: "delete-err"})
+		b.record(t, BucketOp{Start: start, StartSeq: startSeq, Op: "delete", Name: name, Err: ErrInjected.Error(), Fault: "delete-err"})
 		return ErrInjected
 	}
 	applied := false
@@ -322,10 +333,10 @@ func (b *SimBucket) Delete(ctx context.Context, name string) error {
 		applied = true
 	}
 	if b.chance(t, "delete-err-after", b.Cfg.DeleteErrAfter) {
-		b.record(t, BucketOp{Op: "delete", Name: name, Err: ErrInjected.Error(), Fault: "delete-err-after", Applied: applied})
+		b.record(t, BucketOp{Start: start, StartSeq: startSeq, Op: "delete", Name: name, Err: ErrInjected.Error(), Fault: "delete-err-after", Applied: applied})
 		return ErrInjected
 	}
-	b.record(t, BucketOp{Op: "delete", Name: name, Applied: applied})
+	b.record(t, BucketOp{Start: start, StartSeq: startSeq, Op: "delete", Name: name, Applied: applied})
 	return nil
 }
 
